@@ -387,8 +387,12 @@ class Scheduler:
             runnable = self._runnable()
             # bounded-lag adversarial time: fire a timer although threads are runnable
             if runnable and self.lag > 0:
+                # a thread whose timer has fired but which has not run yet may be overtaken by at most `lag`
+                overdue = [t.deadline for t in self.all if t.status == RUNNABLE and t.timed_out
+                           and t.deadline is not None]
+                limit = (min(overdue) + self.lag) if overdue else float('inf')
                 due = [t for t in self.all if t.status == BLOCKED and t.deadline is not None
-                       and t.deadline - self.now <= self.lag]
+                       and t.deadline - self.now <= self.lag and t.deadline <= limit]
                 if due:
                     t = self.strategy.fire_early(self, due)
                     if t is not None:
